@@ -70,8 +70,8 @@ func checkC16(t TB, c ConcCase) {
 		// corrupted by racing first requests shows in later, purely sequential calls
 		out, stderr, code, err := runOneshot2(true, c.Specs, rsPool, "concurrent", fmt.Sprint(c.Procs))
 		switch {
-		case err != nil:
-			t.Fatalf("cannot run the cold-start helper: %v", err)
+		case err != nil || code == 2:
+			t.Fatalf("INFRASTRUCTURE: cannot run the cold-start helper: %v (exit %d) %s", err, code, tail(stderr, 300))
 		case code == 66 || strings.Contains(stderr, "WARNING: DATA RACE"):
 			failf(t, P, K, c, "race detector report in a fresh process whose first library calls are %d concurrent encodes:\n%s", n, tail(stderr, 2500))
 		case code == 3:
@@ -135,14 +135,14 @@ func checkC16(t TB, c ConcCase) {
 	}
 	// every goroutine the library started must be gone (bounded settle loop)
 	left := runtime.NumGoroutine()
-	for i := 0; i < 400 && left > base; i++ {
+	for i := 0; i < 1200 && left > base; i++ {
 		time.Sleep(5 * time.Millisecond)
 		left = runtime.NumGoroutine()
 	}
 	if left > base {
 		buf := make([]byte, 1<<16)
 		buf = buf[:runtime.Stack(buf, true)]
-		failf(t, P, K, c, "%d goroutines before the workload, %d still alive 2 s after all calls returned:\n%s", base, left, tail(string(buf), 3000))
+		failf(t, P, K, c, "%d goroutines before the workload, %d still alive 6 s after all calls returned:\n%s", base, left, tail(string(buf), 3000))
 	}
 }
 
@@ -259,14 +259,14 @@ func TestC16LeakSweep(t *testing.T) {
 		encodeSpec(s)
 		st.Eval()
 		left := runtime.NumGoroutine()
-		for i := 0; i < 400 && left > base; i++ {
+		for i := 0; i < 2500 && left > base; i++ {
 			time.Sleep(2 * time.Millisecond)
 			left = runtime.NumGoroutine()
 		}
 		if left > base {
 			buf := make([]byte, 1<<16)
 			buf = buf[:runtime.Stack(buf, true)]
-			failf(t, "C16", "goroutine-leak", s, "%d goroutines before the call, %d still alive 0.8 s after it returned:\n%s", base, left, tail(string(buf), 2500))
+			failf(t, "C16", "goroutine-leak", s, "%d goroutines before the call, %d still alive 5 s after it returned:\n%s", base, left, tail(string(buf), 2500))
 		}
 	}
 	for n := 0; n <= maxN; n++ {
@@ -315,7 +315,7 @@ func init() {
 		base := runtime.NumGoroutine()
 		encodeSpec(s)
 		left := runtime.NumGoroutine()
-		for i := 0; i < 400 && left > base; i++ {
+		for i := 0; i < 2500 && left > base; i++ {
 			time.Sleep(2 * time.Millisecond)
 			left = runtime.NumGoroutine()
 		}
